@@ -164,7 +164,7 @@ pub struct CallIdx<T, OT> { pub start: Option<usize>, pub end: usize, pub v: T, 
 
 // call k gets end == k, the element at k, and a window start that is None during warm-up and then 0, 1, 2, ...
 pub open spec fn idx_ok<T, OT>(h: Seq<CallIdx<T, OT>>, x: Seq<T>, start: Option<usize>, end: usize, v: T) -> bool {
-    &&& end == h.len() && end < x.len() && v == x[end as int]
+    &&& end == h.len() && end < x.len() && x.len() <= usize::MAX && v == x[end as int]
     &&& start.is_none() ==> (h.len() == 0 || h.last().start.is_none())
     &&& start matches Some(s) ==> {
         &&& s <= end
@@ -281,11 +281,33 @@ pub trait RollingDrivers<T>: Vec1View<T> {
             old(f).inv(),
             all_elem_ok::<T, OT, F>(self.view()),
             out matches Some(o) ==> buf_fresh(o, self.view().len()),
-            (window == 0 && out.is_none()) ==> panic_allowed(),
+            (window == 0 && out.is_none() && self.view().len() > 0) ==> panic_allowed(),     // assert!(window > 0 || len == 0)
         ensures
             final(f).inv(),
             final(f).cfg() == old(f).cfg(),
             window >= 1 ==> trace_ok(final(f).hist(), self.view(), window),
             window >= 1 ==> delivered(r, match out { Some(o) => Some(final(o).written()), None => None }, outs(final(f).hist())),
-            window == 0 ==> r.is_none();
+            // window 0: nothing is called or written; an empty series still gives an (empty) result
+            window == 0 ==> final(f).hist() =~= old(f).hist(),
+            (window == 0 && out.is_some()) ==> r.is_none() && (out matches Some(o) ==> final(o).written() =~= o.written()),
+            (window == 0 && out.is_none() && self.view().len() == 0) ==> r.is_some() && r.unwrap().oview().len() == 0;
+
+    // tea-core view.rs rolling_apply_idx
+    fn rolling_apply_idx<O: Vec1<OT>, OT, F: RollingIdxFn<T, OT>>(&self, window: usize, f: &mut F, out: Option<&mut O::Buf>) -> (r: Option<O>)
+        requires
+            old(f).hist().len() == 0,
+            old(f).inv(),
+            old(f).series() == self.view(),
+            out matches Some(o) ==> buf_fresh(o, self.view().len()),
+            (window == 0 && out.is_none() && self.view().len() > 0) ==> panic_allowed(),     // assert!(window > 0 || len == 0)
+        ensures
+            final(f).inv(),
+            final(f).cfg() == old(f).cfg(),
+            final(f).series() == old(f).series(),
+            window >= 1 ==> trace_idx_ok(final(f).hist(), self.view(), window),
+            window >= 1 ==> delivered(r, match out { Some(o) => Some(final(o).written()), None => None }, outs_idx(final(f).hist())),
+            window == 0 ==> final(f).hist() =~= old(f).hist(),
+            (window == 0 && out.is_some()) ==> r.is_none() && (out matches Some(o) ==> final(o).written() =~= o.written()),
+            (window == 0 && out.is_none() && self.view().len() == 0) ==> r.is_some() && r.unwrap().oview().len() == 0;
 }
+pub open spec fn outs_idx<T, OT>(h: Seq<CallIdx<T, OT>>) -> Seq<OT> { Seq::new(h.len(), |i: int| h[i].out) }
